@@ -423,7 +423,8 @@ where
                         // the layout kept so far and the new one are adjacent in
                         // the input.
                         let start = position.pos.saturating_sub(layout.map_or(0, |l| l.len()));
-                        context.set_layout_ahead(Some(input.slice(start..context.position().pos)));
+                        // Positions are byte offsets (`Input::slice` for `str` counts chars).
+                        context.set_layout_ahead(Some(&input[start..context.position().pos]));
                     } else {
                         context.set_layout_ahead(layout);
                     }
